@@ -1,11 +1,11 @@
 //go:build verif
 
 //verif:dir p2p/host/basic
-//verif:obligation C07.a BasicHost.newStreamHandler with the real multistream muxer: an application handler runs iff deadline setting, negotiation and SetProtocol all succeeded; it is exactly the handler registered for the negotiated protocol, it runs on a stream that already reports that protocol (so the stream is charged to that protocol's scope), handlers of other protocols and removed handlers never run; in every other case the stream is reset and no handler runs
+//verif:obligation C07.a BasicHost.newStreamHandler with the real multistream muxer: an application handler runs iff deadline setting, negotiation and SetProtocol all succeeded; it is exactly the handler registered for the negotiated protocol, it runs on a stream that already reports that protocol (so the stream is charged to that protocol's scope), handlers of other protocols and removed handlers never run; a handler registered with a match function runs on a stream reporting the protocol ID the dialer actually requested never run; in every other case the stream is reset and no handler runs
 //verif:obligation C07.c streamWrapper (optimistically negotiated stream): CloseWrite flushes the pending multistream header before half-closing the stream; Read / Write / Close go through the lazy multistream connection, never around it
-//verif:bound listener with handlers for /proto/a and /proto/b (one of them optionally removed again); the dialer's wire bytes are one of: a correct multistream-select request for /proto/a, /proto/b, an unregistered /proto/c, or an immediate EOF; SetDeadline / SetProtocol outcomes symbolic
+//verif:bound listener with handlers for /proto/a, /proto/b (optionally removed again) and a match-function handler for /proto/m/*; the dialer's wire bytes are one of: a correct multistream-select request for /proto/a, /proto/b, an unregistered /proto/c, /proto/m/1.3.0, or an immediate EOF; SetDeadline / SetProtocol outcomes symbolic
 //verif:stub network.Stream / Conn / event emitter harness stubs; the stream serves concrete request bytes so the real go-multistream Negotiate code is executed (symbolically and natively)
-//verif:outside match-function handlers, the dialer side of the negotiation (BasicHost.NewStream is covered under C04.e), stale peerstore knowledge end-to-end, both hosts connected over a real transport
+//verif:outside the dialer side of the negotiation (BasicHost.NewStream is covered under C04.e), stale peerstore knowledge end-to-end, both hosts connected over a real transport
 package basichost
 
 import (
@@ -83,7 +83,9 @@ func vC07msg(s string) []byte {
 	return append(b, '\n')
 }
 
-var vC07protos = []protocol.ID{"/proto/a", "/proto/b", "/proto/c"}
+var vC07protos = []protocol.ID{"/proto/a", "/proto/b", "/proto/c", "", "/proto/m/1.3.0"}
+
+func vC07match(p protocol.ID) bool { return len(p) > 9 && p[:9] == "/proto/m/" }
 
 func VerifC07aNewStreamHandler() {
 	h := &BasicHost{mux: msmux.NewMultistreamMuxer[protocol.ID]()}
@@ -92,6 +94,7 @@ func VerifC07aNewStreamHandler() {
 	var seenProto []protocol.ID
 	h.SetStreamHandler("/proto/a", func(s network.Stream) { ran = append(ran, "a"); seenProto = append(seenProto, s.Protocol()) })
 	h.SetStreamHandler("/proto/b", func(s network.Stream) { ran = append(ran, "b"); seenProto = append(seenProto, s.Protocol()) })
+	h.SetStreamHandlerMatch("/proto/m/1.0.0", vC07match, func(s network.Stream) { ran = append(ran, "m"); seenProto = append(seenProto, s.Protocol()) })
 	removedB := vBool()
 	if removedB {
 		h.Mux().RemoveHandler("/proto/b")
@@ -99,14 +102,14 @@ func VerifC07aNewStreamHandler() {
 	if vBool() {
 		h.negtimeout = time.Second
 	}
-	req := vCase(4) // 0 a, 1 b, 2 unregistered c, 3 EOF
+	req := vCase(5) // 0 a, 1 b, 2 unregistered c, 3 EOF, 4 a version accepted by m's match function
 	st := &vC07stream{setProtoFail: vBool(), deadlineFail: vCase(3)}
-	if req < 3 {
+	if req != 3 {
 		st.in = append(vC07msg("/multistream/1.0.0"), vC07msg(string(vC07protos[req]))...)
 	}
 	vSetUnwind(400)
 	h.newStreamHandler(st)
-	negotiable := req == 0 || (req == 1 && !removedB)
+	negotiable := req == 0 || (req == 1 && !removedB) || req == 4
 	deadlineOK := h.negtimeout == 0 || st.deadlineFail == 0 || st.deadlineFail > st.deadlines
 	if len(ran) > 0 {
 		vCover("handler-ran")
@@ -115,6 +118,10 @@ func VerifC07aNewStreamHandler() {
 		want := "a"
 		if req == 1 {
 			want = "b"
+		}
+		if req == 4 {
+			want = "m"
+			vCover("match-function-handler")
 		}
 		vAssert(ran[0] == want, "the handler registered for the negotiated protocol runs, no other")
 		vAssert(seenProto[0] == vC07protos[req] && st.proto == vC07protos[req], "the handler runs on a stream that already reports the negotiated protocol")
